@@ -1,3 +1,207 @@
+// ptkill runs a command under ptrace and either counts the file-system syscalls it
+// issues (all threads and child processes, in global order) or kills the whole process
+// at the entry of the k-th such syscall, i.e. with the disk frozen in the state after
+// the (k-1)-th.
+//
+//	ptkill -count            -- cmd args...   prints "COUNT n" and one "SYS i name" line per call
+//	ptkill -kill k           -- cmd args...   prints "KILLED k name" or "COMPLETED n" (fewer than k calls)
+//
+// Linux/amd64 only.
 package main
 
-func main() {}
+import (
+	"flag"
+	"fmt"
+	"os"
+	"os/exec"
+	"runtime"
+	"syscall"
+)
+
+// the syscalls that change the file system (amd64 numbers)
+var fsSyscalls = map[uint64]string{
+	1:   "write",
+	18:  "pwrite64",
+	20:  "writev",
+	2:   "open",
+	257: "openat",
+	437: "openat2",
+	85:  "creat",
+	3:   "close",
+	82:  "rename",
+	264: "renameat",
+	316: "renameat2",
+	87:  "unlink",
+	263: "unlinkat",
+	84:  "rmdir",
+	83:  "mkdir",
+	258: "mkdirat",
+	90:  "chmod",
+	91:  "fchmod",
+	268: "fchmodat",
+	92:  "chown",
+	93:  "fchown",
+	94:  "lchown",
+	260: "fchownat",
+	235: "utimes",
+	261: "futimesat",
+	280: "utimensat",
+	88:  "symlink",
+	266: "symlinkat",
+	86:  "link",
+	265: "linkat",
+	76:  "truncate",
+	77:  "ftruncate",
+	74:  "fsync",
+	75:  "fdatasync",
+	285: "fallocate",
+	40:  "sendfile",
+	326: "copy_file_range",
+}
+
+const (
+	oCreat  = 0x40
+	oTrunc  = 0x200
+	oWronly = 0x1
+	oRdwr   = 0x2
+)
+
+// relevant decides whether this call counts as a boundary: writes to fd 0..2 (terminal / pipes of the harness)
+// and read-only opens are not file-system changes.
+func relevant(nr uint64, regs *syscall.PtraceRegs) bool {
+	switch nr {
+	case 1, 18, 20: // write family: fd in rdi
+		return regs.Rdi > 2
+	case 2: // open(path, flags)
+		return regs.Rsi&(oCreat|oTrunc|oWronly|oRdwr) != 0
+	case 257: // openat(dirfd, path, flags)
+		return regs.Rdx&(oCreat|oTrunc|oWronly|oRdwr) != 0
+	case 3: // close
+		return regs.Rdi > 2
+	}
+	return true
+}
+
+func main() {
+	count := flag.Bool("count", false, "count the file-system syscalls")
+	kill := flag.Int("kill", 0, "kill at the entry of the k-th file-system syscall")
+	report := flag.String("report", "", "file to write the report to (default standard error)")
+	flag.Parse()
+	out := os.Stderr
+	defer func() { out.Close() }()
+	args := flag.Args()
+	if len(args) == 0 || (!*count && *kill <= 0) {
+		fmt.Fprintln(os.Stderr, "usage: ptkill (-count | -kill k) -- cmd args...")
+		os.Exit(2)
+	}
+	if *report != "" {
+		f, err := os.Create(*report)
+		if err != nil {
+			fmt.Fprintln(os.Stderr, "ptkill:", err)
+			os.Exit(2)
+		}
+		out = f
+	}
+	runtime.LockOSThread()
+	cmd := exec.Command(args[0], args[1:]...)
+	cmd.Stdin, cmd.Stdout, cmd.Stderr = os.Stdin, os.Stdout, os.Stderr
+	cmd.SysProcAttr = &syscall.SysProcAttr{Ptrace: true}
+	if err := cmd.Start(); err != nil {
+		fmt.Fprintln(os.Stderr, "ptkill: start:", err)
+		os.Exit(2)
+	}
+	pid := cmd.Process.Pid
+	var ws syscall.WaitStatus
+	if _, err := syscall.Wait4(pid, &ws, 0, nil); err != nil {
+		fmt.Fprintln(os.Stderr, "ptkill: wait:", err)
+		os.Exit(2)
+	}
+	opts := syscall.PTRACE_O_TRACESYSGOOD | syscall.PTRACE_O_TRACECLONE | syscall.PTRACE_O_TRACEFORK | syscall.PTRACE_O_TRACEVFORK | syscall.PTRACE_O_TRACEEXEC | 0x100000 /* PTRACE_O_EXITKILL */
+	if err := syscall.PtraceSetOptions(pid, opts); err != nil {
+		fmt.Fprintln(os.Stderr, "ptkill: setoptions:", err)
+		os.Exit(2)
+	}
+	if err := syscall.PtraceSyscall(pid, 0); err != nil {
+		fmt.Fprintln(os.Stderr, "ptkill: syscall:", err)
+		os.Exit(2)
+	}
+	inSyscall := map[int]bool{}
+	n := 0
+	var log []string
+	exitCode := 0
+	for {
+		tid, err := syscall.Wait4(-1, &ws, syscall.WALL, nil)
+		if err != nil {
+			break // no more tracees
+		}
+		if ws.Exited() || ws.Signaled() {
+			if tid == pid {
+				if ws.Exited() {
+					exitCode = ws.ExitStatus()
+				} else {
+					exitCode = 128 + int(ws.Signal())
+				}
+			}
+			delete(inSyscall, tid)
+			continue
+		}
+		if !ws.Stopped() {
+			continue
+		}
+		sig := ws.StopSignal()
+		deliver := 0
+		switch {
+		case sig == syscall.SIGTRAP|0x80:
+			// syscall stop: entry and exit alternate per thread
+			if !inSyscall[tid] {
+				inSyscall[tid] = true
+				var regs syscall.PtraceRegs
+				if err := syscall.PtraceGetRegs(tid, &regs); err == nil {
+					if name, ok := fsSyscalls[regs.Orig_rax]; ok && relevant(regs.Orig_rax, &regs) {
+						n++
+						if *count {
+							log = append(log, fmt.Sprintf("SYS %d %s", n, name))
+						}
+						if *kill > 0 && n == *kill {
+							syscall.Kill(pid, syscall.SIGKILL)
+							// reap everything
+							for {
+								if _, err := syscall.Wait4(-1, &ws, syscall.WALL, nil); err != nil {
+									break
+								}
+							}
+							fmt.Fprintf(out, "KILLED %d %s\n", n, name)
+							out.Close()
+							os.Exit(0)
+						}
+					}
+				}
+			} else {
+				inSyscall[tid] = false
+			}
+		case sig == syscall.SIGTRAP && ws.TrapCause() > 0:
+			// clone / fork / vfork / exec event: the new tracee starts with a SIGSTOP that is handled below
+			if ws.TrapCause() == syscall.PTRACE_EVENT_EXEC {
+				inSyscall[tid] = true // the stop after exec is the exit of execve
+			}
+		case sig == syscall.SIGSTOP:
+			// initial stop of a new thread or process: do not deliver
+		case sig == syscall.SIGTRAP:
+			// plain trap (exec without TRACEEXEC): do not deliver
+		default:
+			deliver = int(sig)
+		}
+		syscall.PtraceSyscall(tid, deliver)
+	}
+	if *count {
+		for _, l := range log {
+			fmt.Fprintln(out, l)
+		}
+		fmt.Fprintf(out, "COUNT %d\n", n)
+	} else {
+		fmt.Fprintf(out, "COMPLETED %d\n", n)
+	}
+	if exitCode != 0 {
+		fmt.Fprintf(out, "EXIT %d\n", exitCode)
+	}
+}
